@@ -141,8 +141,26 @@ def sliceAux : List Ix → List Nat → List Nat → Option (Nat × List Nat × 
       match sliceAux xs ds ss with
       | some (o, ds', ss') => some (lo * s + o, ((hi - lo) / st + 1) :: ds', (st * s) :: ss')
       | none => none
+    else if hi < lo ∧ lo < d ∧ 0 < st ∧ lo < hi + 2 * st then
+      -- an EMPTY selection `stride(lo, hi, st)` with `hi < lo`: `RangeIndex::size = (hi - lo + st)/st` in `int` arithmetic is 0
+      -- when `-st < hi - lo + st < st`; `data_` still moves by `lo * offset_`
+      match sliceAux xs ds ss with
+      | some (o, ds', ss') => some (lo * s + o, 0 :: ds', (st * s) :: ss')
+      | none => none
     else none
   | _, _, _ => none
+
+/-- the view constructor `Array(data, storage, dims, offset)`: if ANY extent is zero ALL extents are zero (as `resize` does) -/
+def canonDims (ds : List Nat) : List Nat := if ds.any (fun d => d == 0) then ds.map (fun _ => 0) else ds
+
+/-- the view `A(args…)` as the view constructor stores it -/
+def sliceView (xs : List Ix) (ds ss : List Nat) : Option (Nat × List Nat × List Nat) :=
+  match sliceAux xs ds ss with
+  | some (o, ds', ss') => some (o, canonDims ds', ss')
+  | none => none
+
+/-- `Array::empty()` (`dimensions_[0] == 0`): no storage, or an empty view (all extents zero) that still holds a link -/
+def isEmptyArr (a : ArrObj) : Bool := a.st.isNone || a.dims.any (fun d => d == 0)
 
 def nRanges : List Ix → Nat
   | [] => 0
@@ -258,7 +276,7 @@ def pstep (s : OS) : Prim → OS
         | some sid =>
           let view := match spec with
                       | none => some (0, b.dims, b.strides)
-                      | some xs => sliceAux xs b.dims b.strides
+                      | some xs => sliceView xs b.dims b.strides
           match view, findStor s sid with
           | some (o, ds, ss), some t =>
             -- add_link
@@ -310,7 +328,25 @@ inductive OOp
   | assign (h src : Nat)          -- `*h = *src` (arrays of the same rank)
   | swapArr (h1 h2 : Nat)         -- `swap(*h1, *h2)`
   | newRec
+  | listFixed (h : Nat) (dims : List Nat) (active : Bool)
+                                  -- `new FixedArray<Real,active,dims…>{{…},…}` (FixedArray.h, the seven `std::initializer_list` constructors:
+                                  -- `GradientIndex<IsActive>(length_, false)` registers `length_` slots, then `*this = list` registers nothing)
+  | listArr (h : Nat) (dims : List Nat) (active : Bool)
+                                  -- `new Array<rank,Real,active>{{…},…}` (Array.h, the seven `std::initializer_list` constructors:
+                                  -- `data_(0), storage_(0), dimensions_(0)` then `*this = list`: `empty()`, so `resize(shape of the list)`);
+                                  -- rank = `dims.length`
+  | assignList (h : Nat) (dims : List Nat)
+                                  -- `*h = {{…},…}`, a list of shape `dims`: `operator=(std::initializer_list…)`: an `empty()` Array is resized to
+                                  -- the shape of the list (an empty VIEW gives its link back first), otherwise nothing is registered or released
+  | linkTemp (h src : Nat) (spec : List Ix)
+                                  -- `*h >>= (*src)(spec…)`: `Array::operator>>=(Array&&)` = `link(Array&)` on the temporary view, which is
+                                  -- destroyed at the end of the full expression
 deriving Repr, DecidableEq
+
+/-- product of the extents -/
+def prodDims : List Nat → Nat
+  | [] => 1
+  | d :: ds => d * prodDims ds
 
 /-- handle of temporaries (never used by a history) -/
 def TMP : Nat := 4000000000
@@ -381,7 +417,7 @@ def expand (s : OS) : OOp → Option (List Prim)
   | .slice h src spec =>
     match s.arrs.lookup src with
     | some b =>
-      if freshHandle s h && b.kind < 10 && b.st.isSome && 0 < nRanges spec && (sliceAux spec b.dims b.strides).isSome then
+      if freshHandle s h && b.kind < 4 && b.st.isSome && 0 < nRanges spec && (sliceAux spec b.dims b.strides).isSome then
         some [.arrNew h (nRanges spec), .arrShare h src (some spec)]
       else none
     | none => none
@@ -408,8 +444,12 @@ def expand (s : OS) : OOp → Option (List Prim)
     match s.arrs.lookup h, s.arrs.lookup src with
     | some a, some b =>
       if a.kind != b.kind || a.kind ≥ 10 || h == src then none
-      else if b.st.isNone then some []                                 -- empty right-hand side: nothing happens
-      else if a.st.isNone then some [.arrAlloc h b.dims]               -- assignment to an empty array: `resize(dims)`
+      else if isEmptyArr a then
+        -- `empty()` (first extent zero): `resize(rhs dims)`; a zero extent there means `clear()`.  An empty VIEW holds a link: it goes.
+        if isEmptyArr b then (if a.st.isSome then some [.arrRelease h] else some [])
+        else if a.st.isSome then some [.arrRelease h, .arrAlloc h b.dims]
+        else some [.arrAlloc h b.dims]                                 -- assignment to an empty array: `resize(dims)`
+      else if isEmptyArr b then some []                                -- size_mismatch is thrown
       else if a.dims != b.dims then some []                            -- size_mismatch is thrown
       else if aliased a b then
         -- `Array copy; copy = rhs;` a temporary array is allocated, filled, read and destroyed
@@ -421,6 +461,35 @@ def expand (s : OS) : OOp → Option (List Prim)
     | some a, some b => if a.kind == b.kind && a.kind < 10 && h1 != h2 then some [.arrSwap h1 h2] else none
     | _, _ => none
   | .newRec => some [.newRec]
+  | .listFixed h dims active =>
+    if freshHandle s h && dims != [] && dims.all (fun d => 0 < d) then
+      if active then some [.ownNew h false 5, .ownPush h (prodDims dims) 0]
+      else some [.ownNew h false 4]                                    -- `GradientIndex<false>`: nothing to register
+    else none
+  | .listArr h dims active =>
+    if freshHandle s h && dims != [] && dims.length < 8 && dims.all (fun d => 0 < d) then
+      if active then some [.arrNew h dims.length, .arrAlloc h dims]
+      else some [.ownNew h false 4]                                    -- `Storage(n, false)`: `gradient_index_ = -1`, nothing registered
+    else none
+  | .assignList h dims =>
+    match s.owns.lookup h, s.arrs.lookup h with
+    | some o, _ => if o.tag == 4 || o.tag == 5 then some [] else none
+    | none, some a =>
+      if a.kind ≥ 10 || dims.length != a.kind || !dims.all (fun d => 0 < d) then none
+      else if isEmptyArr a then
+        if a.st.isSome then some [.arrRelease h, .arrAlloc h dims] else some [.arrAlloc h dims]
+      else if a.dims == dims then some []
+      else none
+    | none, none => none
+  | .linkTemp h src spec =>
+    match s.arrs.lookup h, s.arrs.lookup src with
+    | some a, some b =>
+      if h == src || b.kind ≥ 4 || b.st.isNone || nRanges spec == 0 || a.kind != nRanges spec
+         || (sliceAux spec b.dims b.strides).isNone || (s.arrs.lookup TMP).isSome then none
+      else
+        -- the temporary view (`add_link`), `link`: `clear()` then take the temporary's storage (`add_link`), `~Array` of the temporary
+        some [.arrNew TMP (nRanges spec), .arrShare TMP src (some spec), .arrRelease h, .arrShare h TMP none, .arrRelease TMP, .arrDel TMP]
+    | _, _ => none
 
 /-- one object-level step (an inapplicable operation changes nothing) -/
 def ostep (s : OS) (op : OOp) : OS :=
